@@ -176,6 +176,13 @@ class Effects:
         # parent = the body whose id is the closure id minus the last ::{closure#n}
         pid = cb.id.rsplit("::{closure", 1)[0]
         parent = self.prog.by_id.get(pid)
+        if parent is None:
+            # the closure of a novel helper that was inlined into its caller(s) and dropped: it lives in the caller now (the one that
+            # holds its aggregate); ambiguous when several callers inlined the helper
+            hosts = [x for x in self.prog.bodies if pid in (x.j.get("inlined") or ()) and
+                     any(s_["k"] == "assign" and s_["rv"]["k"] == "agg" and s_["rv"].get("agg") == "closure" and s_["rv"].get("def") == cb.id for _p, s_ in x.stmts())]
+            if len(hosts) == 1:
+                parent = hosts[0]
         if parent is not None:
             for pos, s in parent.stmts():
                 if s["k"] == "assign" and s["rv"]["k"] == "agg" and s["rv"].get("agg") == "closure" and s["rv"]["def"] == cb.id:
